@@ -84,4 +84,96 @@ theorem unlocked_ends (sd : Bool) (ol y : Int) : S_unlocked_ends sd ol y := by
   · simp [Dec.chopRoundNN]
   · exact Dec.chopRoundNN_whole ol ho
 
+/-- the value the schedule computes inside the window -/
+def U (ol s e t : Int) : Int := Dec.chopRoundNN (ol * Dec.ratioRaw (Time.unix t - Time.unix s) (Time.unix e - Time.unix s))
+
+theorem U_range (ol s e t : Int) (ho : 0 ≤ ol) (h1 : s ≤ t) (h2 : t ≤ e) (hy : Time.unix s < Time.unix e) :
+    0 ≤ U ol s e t ∧ U ol s e t ≤ ol := by
+  have hx : 0 ≤ Time.unix t - Time.unix s := by have := Time.unix_mono h1; omega
+  have hxy : Time.unix t - Time.unix s ≤ Time.unix e - Time.unix s := by have := Time.unix_mono h2; omega
+  have := unlocked_bounds false ol _ _ ho hx hxy (by omega : 0 < Time.unix e - Time.unix s)
+  rw [unlocked_eq false ol _ _ ho hx (by omega)] at this
+  exact this
+
+theorem U_mono (ol s e t1 t2 : Int) (ho : 0 ≤ ol) (h1 : s ≤ t1) (h12 : t1 ≤ t2) (hy : Time.unix s < Time.unix e) :
+    U ol s e t1 ≤ U ol s e t2 := by
+  have hx : 0 ≤ Time.unix t1 - Time.unix s := by have := Time.unix_mono h1; omega
+  have hx2 : Time.unix t1 - Time.unix s ≤ Time.unix t2 - Time.unix s := by have := Time.unix_mono h12; omega
+  have := unlocked_mono false ol _ _ _ ho hx hx2 (by omega : 0 < Time.unix e - Time.unix s)
+  rw [unlocked_eq false ol _ _ ho hx (by omega), unlocked_eq false ol _ _ ho (by omega) (by omega)] at this
+  exact this
+
+/-- complete case analysis of `GetLockCoinInfoWithDenom` (both packages) -/
+theorem lockInfo_cases (sd : Bool) (ol s e t : Int) (ho : 0 ≤ ol) :
+    (t < s ∧ lockInfo (vOf sd) ol s e t = .ok (0, ol))
+    ∨ (s ≤ t ∧ e < t ∧ lockInfo (vOf sd) ol s e t = .ok (ol, 0))
+    ∨ (s ≤ t ∧ t ≤ e ∧ Time.unix s = Time.unix e ∧ lockInfo (vOf sd) ol s e t = .panic .divZero)
+    ∨ (s ≤ t ∧ t ≤ e ∧ Time.unix s < Time.unix e ∧ lockInfo (vOf sd) ol s e t = .ok (U ol s e t, ol - U ol s e t)) := by
+  by_cases hb : t < s
+  · left
+    refine ⟨hb, ?_⟩
+    cases sd <;> simp [lockInfo, vOf, kBeforeStart, nv_sched_beforeStart, sd_sched_beforeStart, hb]
+  · have hs : s ≤ t := by omega
+    have hb' : ¬ s > t := by omega
+    by_cases ha : e < t
+    · right; left
+      refine ⟨hs, ha, ?_⟩
+      cases sd <;> simp [lockInfo, vOf, kBeforeStart, kAfterEnd, nv_sched_beforeStart, sd_sched_beforeStart,
+        nv_sched_afterEnd, sd_sched_afterEnd, hb', ha]
+    · have he : t ≤ e := by omega
+      have hse := Time.unix_mono (Int.le_trans hs he)
+      by_cases hy : Time.unix s = Time.unix e
+      · right; right; left
+        refine ⟨hs, he, hy, ?_⟩
+        cases sd <;> simp [lockInfo, vOf, kBeforeStart, kAfterEnd, kY, nv_sched_beforeStart, sd_sched_beforeStart,
+          nv_sched_afterEnd, sd_sched_afterEnd, nv_sched_y, sd_sched_y, hb', ha, hy, Dec.isZero, Dec.ofInt]
+      · right; right; right
+        have hlt : Time.unix s < Time.unix e := by omega
+        refine ⟨hs, he, hlt, ?_⟩
+        have hx : 0 ≤ Time.unix t - Time.unix s := by have := Time.unix_mono hs; omega
+        have hyp : 0 < Time.unix e - Time.unix s := by omega
+        have hu := unlocked_eq sd ol (Time.unix t - Time.unix s) (Time.unix e - Time.unix s) ho hx hyp
+        have hr := U_range ol s e t ho hs he hlt
+        have hjpos : 0 < (Time.unix e - Time.unix s) * PREC := Int.mul_pos hyp Dec.PREC_pos
+        have hynz : ¬ ((Time.unix e - Time.unix s) * PREC = 0) := by omega
+        unfold U at hr
+        cases sd <;>
+          simp only [vOf, Bool.false_eq_true, if_false, if_true] at hu ⊢ <;>
+          simp [lockInfo, kBeforeStart, kAfterEnd, kX, kY, kLocked, nv_sched_beforeStart, sd_sched_beforeStart,
+            nv_sched_afterEnd, sd_sched_afterEnd, nv_sched_x, sd_sched_x, nv_sched_y, sd_sched_y, nv_sched_locked, sd_sched_locked,
+            hb', ha, Dec.isZero, Dec.ofInt, hynz, hu, U] <;>
+          (have n1 : ¬ Dec.chopRoundNN (ol * Dec.ratioRaw (Time.unix t - Time.unix s) (Time.unix e - Time.unix s)) < 0 := by omega
+           have n2 : ¬ ol < Dec.chopRoundNN (ol * Dec.ratioRaw (Time.unix t - Time.unix s) (Time.unix e - Time.unix s)) := by omega
+           simp [n1, n2])
+
+theorem schedule_range (sd : Bool) (ol s e t : Int) : S_schedule_range sd ol s e t := by
+  unfold S_schedule_range lockOk unlockedVal lockedVal
+  intro ho hok
+  rcases lockInfo_cases sd ol s e t ho with ⟨h1, h⟩ | ⟨h1, h2, h⟩ | ⟨h1, h2, h3, h⟩ | ⟨h1, h2, h3, h⟩
+  · simp [h]; omega
+  · simp [h]; omega
+  · simp [h, Res.isOk] at hok
+  · have hr := U_range ol s e t ho h1 h2 h3
+    simp [h]; omega
+
+theorem schedule_panics_only_degenerate (sd : Bool) (ol s e t : Int) : S_schedule_panics_only_degenerate sd ol s e t := by
+  unfold S_schedule_panics_only_degenerate lockOk
+  intro ho hok
+  rcases lockInfo_cases sd ol s e t ho with ⟨h1, h⟩ | ⟨h1, h2, h⟩ | ⟨h1, h2, h3, h⟩ | ⟨h1, h2, h3, h⟩
+  · simp [h, Res.isOk] at hok
+  · simp [h, Res.isOk] at hok
+  · exact ⟨h1, h2, h3⟩
+  · simp [h, Res.isOk] at hok
+
+/-- locked(t) is antitone in t, i.e. unlocked(t) is monotone: across start, inside the window, across end -/
+theorem locked_antitone (sd : Bool) (ol s e t1 t2 : Int) : S_locked_antitone sd ol s e t1 t2 := by
+  unfold S_locked_antitone lockOk lockedVal
+  intro ho h12 hok1 hok2
+  rcases lockInfo_cases sd ol s e t1 ho with ⟨a1, a⟩ | ⟨a1, a2, a⟩ | ⟨a1, a2, a3, a⟩ | ⟨a1, a2, a3, a⟩ <;>
+  rcases lockInfo_cases sd ol s e t2 ho with ⟨b1, b⟩ | ⟨b1, b2, b⟩ | ⟨b1, b2, b3, b⟩ | ⟨b1, b2, b3, b⟩ <;>
+  simp [a, b, Res.isOk] at hok1 hok2 ⊢ <;> try omega
+  · have := U_range ol s e t2 ho b1 b2 b3; omega
+  · have := U_range ol s e t1 ho a1 a2 a3; omega
+  · have := U_mono ol s e t1 t2 ho a1 h12 a3; omega
+
 end Sunrise.C12
